@@ -25,6 +25,8 @@ OWN = {"PUBLISH": {"queuePublishTx", "windowPublish"}, "PUBREL": {"windowPubRele
 
 def check(ctx):
     a = ctx.a
+    from .c03 import framing_premise
+    framing_premise(ctx, 'Q-FRAME', 'a PUBREC/PUBCOMP that is mis-framed stalls or corrupts the QoS 2 exchange')
     ty = types(a)
     caps, pm, _ = capabilities(a)
     classes = [c for c in a.protos if "pub" in caps.get(c.qual, set())]
